@@ -20,6 +20,28 @@ def run(tier, seed):
     chk = fw.Check("C10", tier, seed)
     br, ob = fw.standard_prelude(chk, with_coqchk=(tier == "thorough"))
     B = authrun.AuthBench(chk, br)
+    # the exported helper's own results are the caller's to do with as it likes: whatever an application does to them, later ceremonies report the bits
+    from webauthn.helpers import parse_backup_flags
+    from webauthn.helpers.structs import AuthenticatorDataFlags
+    def helper_sweep(vandalise):
+        for f in range(256):
+            fl = AuthenticatorDataFlags(up=bool(f & 1), uv=bool(f & 4), be=bool(f & 8), bs=bool(f & 16), at=bool(f & 64), ed=bool(f & 128))
+            try:
+                r = parse_backup_flags(fl)
+                got = (r.credential_device_type.value, bool(r.credential_backed_up))
+                ok = True
+            except Exception as e:
+                got, ok = ("ERR " + fw.classify_exc(e),), False
+            chk.evals += 1
+            want_ok = not (f & 16 and not f & 8)
+            want = ("multi_device" if f & 8 else "single_device", bool(f & 16))
+            if ok != want_ok or (ok and got != want):
+                chk.violation(f"parse_backup_flags for flags {f:#04x} gives {got}, the bits say {want if want_ok else 'refused'}" + (" (after earlier results were edited by their caller)" if not vandalise else ""),
+                              f"backup-flags-helper flags={f:#04x}", {"entry": "parse_backup_flags", "flags": f, "got": list(got), "history": "results of an earlier sweep were overwritten in place by the caller"})
+            if ok and vandalise:
+                impl.vandalise_any(r)
+    helper_sweep(True)
+    helper_sweep(False)
     for f in range(256):
         for ruv in (False, True):
             s = authcat.Scn("ES256-P256" if f % 7 else "EdDSA")
